@@ -1,5 +1,5 @@
 CONSTANTS MaxBases = 3  MaxRetries = 4  MaxFail = 5  Guard = "all"  AtomicFence = TRUE  Variant = "code"
 SPECIFICATION Spec
-INVARIANTS TypeOK BodyIntact AttemptsBounded SuccessHonest Fallback406 FailoverInOrder GiveUpRule MinAttempts ResponseEncodingOffered
+INVARIANTS TypeOK BodyIntact SourceFaultFails AttemptsBounded SuccessHonest Fallback406 FailoverInOrder GiveUpRule MinAttempts ResponseEncodingOffered
 PROPERTIES Terminates
 CHECK_DEADLOCK FALSE
